@@ -270,13 +270,14 @@ theorem held0_persist (jobs : List Job) :
   intro p _
   simp [slotOf, off]
 
-theorem blank_isBlank (n workers tsteps cstep trajNum seed : Nat) (occ : List (List Int))
-    (ensEng : List (List Nat)) (restarted : Bool) (l0 : List (List Nat × List Nat))
-    (o : List (Option Nat)) :
-    Blank n { blank n workers tsteps cstep trajNum seed occ ensEng restarted l0 with locked0Ord := o } := by
-  refine ⟨rfl, by simp [blank], by simp [blank], by simp [blank], ?_⟩
+/-- any state that has the slot fields of a freshly constructed `REPEX_state` is `Blank`, whatever
+    its bookkeeping fields (`locked0Ord`, `spawned`, …) are -/
+theorem isBlank_of_fields (n : Nat) (s0 : St) (h1 : s0.n = n) (h2 : s0.W.length = n)
+    (h3 : s0.trajs.length = n) (h4 : s0.locks = List.replicate n true) : Blank n s0 := by
+  refine ⟨h1, h2, h3, by rw [h4]; simp, ?_⟩
   intro e he
-  simp [blank, he]
+  rw [h4]
+  simp [he]
 
 /-- **A restart from the restart file of a reachable state is an `InitR` state.**
     `y` any state with the scheduler invariant and an exact `locked` record (every state reachable
@@ -311,8 +312,9 @@ theorem restore_is_initR {y : Sys} (hi : InvR y) (hr : RecInv y) (workers tsteps
     rw [hflen]
     unfold livePaths
     rw [List.length_dropLast, hc.lenT]
+  have key := fun hb => loadPaths_specG (n := y.s.n) hb _ hc.n2 hplen h
   obtain ⟨h1, h2, h3, h4, h5, h6, h7, h8, h9, h10, h11⟩ :=
-    loadPaths_specG (blank_isBlank y.s.n workers tsteps _ _ _ occ ensEng true _ _) _ hc.n2 hplen h
+    key (isBlank_of_fields y.s.n _ rfl (by simp [blank]) (by simp [blank]) rfl)
   -- slot `e` holds after the restart what it held at the stop
   have hsame : ∀ e pn, e < y.s.n - 1 → y.s.trajs[e]? = some (some pn) → s'.trajs[e]? = some (some pn) := by
     intro e pn he hpn
